@@ -1,5 +1,8 @@
 #include "sortedpipeline.h"
 
+#include <algorithm>
+#include <iterator>
+
 namespace QtLogger {
 
 QTLOGGER_DECL_SPEC
@@ -11,9 +14,12 @@ void SortedPipeline::insertBetweenNearLeft(const QSet<HandlerType> &leftType,
             std::find_if(handlers().begin(), handlers().end(),
                          [&rightType](const auto &x) { return rightType.contains(x->type()); });
 
-    auto lastLeft = std::find_if(firstRight, handlers().begin(), [&leftType](const HandlerPtr &x) {
-        return leftType.contains(x->type());
-    });
+    // Just after the last "left" handler that precedes the first "right" one
+    auto lastLeft = std::find_if(std::make_reverse_iterator(firstRight),
+                                 std::make_reverse_iterator(handlers().begin()),
+                                 [&leftType](const HandlerPtr &x) {
+                                     return leftType.contains(x->type());
+                                 }).base();
 
     handlers().insert(lastLeft, handler);
 }
@@ -23,9 +29,12 @@ void SortedPipeline::insertBetweenNearRight(const QSet<HandlerType> &leftType,
                                             const QSet<HandlerType> &rightType,
                                             const HandlerPtr &handler)
 {
-    auto lastLeft =
-            std::find_if(handlers().end(), handlers().begin(),
-                         [&leftType](const HandlerPtr &x) { return leftType.contains(x->type()); });
+    // Just after the last "left" handler
+    auto lastLeft = std::find_if(std::make_reverse_iterator(handlers().end()),
+                                 std::make_reverse_iterator(handlers().begin()),
+                                 [&leftType](const HandlerPtr &x) {
+                                     return leftType.contains(x->type());
+                                 }).base();
 
     auto firstRight = std::find_if(lastLeft, handlers().end(), [&rightType](const auto &x) {
         return rightType.contains(x->type());
@@ -93,8 +102,8 @@ void SortedPipeline::setFormatter(const FormatterPtr &formatter)
 
     clearFormatters();
 
-    insertBetweenNearRight({ HandlerType::AttrHandler, HandlerType::Filter }, { HandlerType::Sink },
-                           formatter);
+    insertBetweenNearRight({ HandlerType::AttrHandler, HandlerType::Filter },
+                           { HandlerType::Sink, HandlerType::Pipeline }, formatter);
 }
 
 QTLOGGER_DECL_SPEC
@@ -106,7 +115,12 @@ void SortedPipeline::clearFormatters()
 QTLOGGER_DECL_SPEC
 void SortedPipeline::appendSink(const SinkPtr &sink)
 {
-    append(sink);
+    if (sink.isNull())
+        return;
+
+    insertBetweenNearRight({ HandlerType::AttrHandler, HandlerType::Filter, HandlerType::Formatter,
+                             HandlerType::Sink },
+                           { HandlerType::Pipeline }, sink);
 }
 
 QTLOGGER_DECL_SPEC
